@@ -38,6 +38,9 @@ static mut JUDGE_CONTENT: u8 = 0;
 static mut POPULATE_CALLS: u8 = 0;
 
 static mut SHARDED_REACHED: bool = false;
+// populate outcome / judge answer fixed by the harness (SYM: left symbolic)
+static mut FIX_POP: u8 = SYM;
+static mut FIX_ACTION: u8 = SYM;
 pub fn ids_01(_c: &crate::sharded::Cache, _k: Key) -> (usize, usize) {
     unsafe { SHARDED_REACHED = true };
     (0, 1)
@@ -193,9 +196,9 @@ fn stack_case(writer: u8, readers: u8, op: u8, checker: u8, auto_sync: bool, fau
         kani::cover!(matches!(&r, Ok(true)), "found");
         std::mem::forget(r);
     } else if op == OP_ENSURE || op == OP_GOU {
-        let pop_outcome: u8 = kani::any(); // 0: writes VAL_C, 1: NotFound, 2: other error
+        let pop_outcome: u8 = if unsafe { FIX_POP } != SYM { unsafe { FIX_POP } } else { kani::any() }; // 0: writes VAL_C, 1: NotFound, 2: other error
         kani::assume(pop_outcome <= 2);
-        let action: u8 = if op == OP_ENSURE { 1 } else { kani::any() }; // 0 Accept, 1 Promote, 2 Replace
+        let action: u8 = if op == OP_ENSURE { 1 } else if unsafe { FIX_ACTION } != SYM { unsafe { FIX_ACTION } } else { kani::any() }; // 0 Accept, 1 Promote, 2 Replace
         kani::assume(action <= 2);
         kfs::dump(kfs::T_OP, 4, action as i64);
         kfs::dump(kfs::T_OP, 5, pop_outcome as i64);
@@ -484,6 +487,12 @@ stack_harness!(stack_set_w1r1_fault, W_PLAIN, 1, OP_SET, CK_NONE, true, true, N,
 // for ensure / get_or_update / set_temp_file.
 macro_rules! stackc_harness {
     ($name:ident, $w:expr, $r:expr, $op:expr, $ck:expr, $sync:expr, $fault:expr, $env:expr, $contents:expr) => {
+        stackc_harness!($name, $w, $r, $op, $ck, $sync, $fault, $env, $contents, false);
+    };
+    ($name:ident, $w:expr, $r:expr, $op:expr, $ck:expr, $sync:expr, $fault:expr, $env:expr, $contents:expr, $crash:expr) => {
+        stackc_harness!($name, $w, $r, $op, $ck, $sync, $fault, $env, $contents, $crash, SYM, SYM);
+    };
+    ($name:ident, $w:expr, $r:expr, $op:expr, $ck:expr, $sync:expr, $fault:expr, $env:expr, $contents:expr, $crash:expr, $pop:expr, $act:expr) => {
         kfs_harness! {
             #[kani::unwind(48)]
             #[kani::stub(crate::sharded::Cache::shard_ids, ids_01)]
@@ -495,6 +504,11 @@ macro_rules! stackc_harness {
             #[kani::stub(crate::plain::Cache::put, crate::plain::kv_contracts::c_put)]
             #[kani::stub(crate::plain::Cache::temp_dir, crate::plain::kv_contracts::c_temp_dir)]
             fn $name() {
+                unsafe {
+                    kfs::CRASH_CHECKS = $crash;
+                    FIX_POP = $pop;
+                    FIX_ACTION = $act;
+                }
                 stack_case($w, $r, $op, $ck, $sync, $fault, $env, $contents);
                 if $fault {
                     kani::cover!(kfs::k().failed, "fault fired");
@@ -533,6 +547,13 @@ stackc_harness!(stackc_gou_w1r1_fault_pri, W_PLAIN, 1, OP_GOU, CK_NONE, true, tr
 stackc_harness!(stackc_set_temp_w1r1_fault, W_PLAIN, 1, OP_SET_TEMP, CK_NONE, true, true, N, [0, 0, 0]);
 stackc_harness!(stackc_put_temp_w1r1_fault, W_PLAIN, 1, OP_PUT_TEMP, CK_NONE, true, true, N, [0, 0, 0]);
 stackc_harness!(stackc_set_w1r1_fault, W_PLAIN, 1, OP_SET, CK_NONE, true, true, N, [0, 0, 0]);
+// experiments: populate outcome / judge answer fixed
+stackc_harness!(stackc_gou_w1r1_pri_p0, W_PLAIN, 1, OP_GOU, CK_NONE, true, false, N, [VAL_A, VAL_B, 0], false, 0, SYM);
+stackc_harness!(stackc_gou_w1r1_pri_p0a2, W_PLAIN, 1, OP_GOU, CK_NONE, true, false, N, [VAL_A, VAL_B, 0], false, 0, 2);
+// with the crash-point invariant re-checked at every call boundary (C02 at the stack level)
+stackc_harness!(stackc_set_w1r1_cp, W_PLAIN, 1, OP_SET, CK_NONE, true, false, N, [SYM, 0, 0], true);
+stackc_harness!(stackc_set_temp_w1r1_cp, W_PLAIN, 1, OP_SET_TEMP, CK_NONE, true, false, N, [SYM, 0, 0], true);
+stackc_harness!(stackc_gou_w1r1_miss_cp, W_PLAIN, 1, OP_GOU, CK_NONE, true, false, N, [0, 0, 0], true);
 
 kfs_harness! {
     #[kani::unwind(48)]
